@@ -758,3 +758,6 @@ add("C02", "order-imports-drops-redundant-alias", "codemodder/codemods/transform
 add("C02", "global-removed-outside-functions", "core_codemods/remove_module_global.py",
     [("        if isinstance(scope, GlobalScope):", "        if not isinstance(scope, cst.metadata.FunctionScope):")],
     "fire", "R-GLOBAL-REMOVAL-SCOPE", "leave_Global")
+add("C20", "converter-looks-up-enum-by-name", CLI,
+    [("        type=OutputFormat,\n", "        type=lambda v: OutputFormat[v.upper()],\n")],
+    "fire", "R-ARG-CONVERTERS", "parse_args")
